@@ -35,6 +35,15 @@ def mgr_call(n: ast.AST) -> Optional[tuple]:
     return None
 
 
+def _anc08(mod: Any, n: ast.AST, stop: Any) -> List[ast.AST]:
+    out = []
+    p = mod.parents.get(n)
+    while p is not None and p is not stop:
+        out.append(p)
+        p = mod.parents.get(p)
+    return out
+
+
 def run(ctx: Any, prog: Program) -> None:
     vm = prog.module('vmf')
     ctx.not_decided += ['garbage-collection timing of __del__', 'parsing of replaceNN names',
@@ -337,6 +346,16 @@ def run(ctx: Any, prog: Program) -> None:
                 carried = isinstance(idx_, ast.Attribute) and idx_.attr == 'id' and isinstance(idx_.value, ast.Name)
                 ctx.check('C08.D5', carried, vm, c, f'EntityFixup.{mname_} creates a FixupValue with the index `{U(idx_)[:40]}`: outside __setitem__ (which searches for the lowest unused index) an index may only be carried '
                           'over from an existing value - a computed one collides with an index in use when the table has gaps', func=f'EntityFixup.{mname_}', text=f'{mname_}: FixupValue index carried over')
+                # a carried index is that of a value in *some* table; put into this object's own table it is only safe when it came from there
+                if carried:
+                    me_ = mfn_.args.args[0].arg if mfn_.args.args else 'self'
+                    par_ = vm.parents.get(c)
+                    into_own = isinstance(par_, ast.Assign) and any(isinstance(t, ast.Subscript) and isinstance(t.value, ast.Attribute) and isinstance(t.value.value, ast.Name) and t.value.value.id == me_ for t in par_.targets)
+                    if into_own:
+                        src_loop = next((a for a in _anc08(vm, c, mfn_) if isinstance(a, ast.For) and any(isinstance(x, ast.Name) and x.id == idx_.value.id for x in ast.walk(a.target))), None)
+                        own_src = src_loop is not None and any(isinstance(x, ast.Name) and x.id == me_ for x in ast.walk(src_loop.iter))
+                        ctx.check('C08.D5', own_src, vm, c, f'EntityFixup.{mname_} stores a FixupValue carrying the index of `{idx_.value.id}` - a value of another table - into its own table: both tables number their '
+                                  'variables from 1, so the imported indexes collide with the ones in use (two variables share one replaceNN)', func=f'EntityFixup.{mname_}', text=f'{mname_}: no foreign index imported')
     if n_fv < 3:
         raise AnalysisError(f'only {n_fv} FixupValue constructions found outside __setitem__ (copy_values, __copy__, __deepcopy__ confirmed by hand)')
     fs = vm.func('EntityFixup.__setitem__')
@@ -428,6 +447,7 @@ def run(ctx: Any, prog: Program) -> None:
 
 
 MUTANTS = [
+    {'id': 'fixup_update_imports_foreign_indexes', 'file': 'vmf.py', 'find': "    @overload\n    def setdefault(self, var: str, /, default: str = ...) -> str: ...", 'replace': "    def update(self, other: Any = (), /, **kwargs: ValidKVs) -> None:  # type: ignore[override]\n        if isinstance(other, EntityFixup) and self._fixup.keys().isdisjoint(other._fixup):\n            for folded_var, fix in other._fixup.items():\n                self._fixup[folded_var] = FixupValue(fix.var, fix.value, fix.id)\n            self._matcher = None\n            other = ()\n        super().update(other, **kwargs)\n\n    @overload\n    def setdefault(self, var: str, /, default: str = ...) -> str: ...", 'expect': 'C08.D5'},
     {'id': 'setdefault_index_from_len', 'file': 'vmf.py', 'find': "            self[folded_var] = default\n            return default", 'replace': "            self._fixup[folded_var] = FixupValue(intern(var), conv_kv(default), len(self._fixup) + 1)\n            self._matcher = None\n            return default", 'expect': 'C08.D5'},
     {'id': 'ok_fixup_index_above_max', 'file': 'vmf.py', 'find': "            ind = 1\n            while ind in indexes:\n                ind += 1", 'replace': "            ind = max(max(indexes, default=0), 0) + 1", 'expect': None, 'refuse_ok': True},
     {'id': 'discard_lowers_to_non_positive', 'file': 'vmf.py', 'find': "        if 0 < element < self.search_pos:\n            self.search_pos = element", 'replace': "        if element < self.search_pos:\n            self.search_pos = element", 'expect': 'C08.D1'},
